@@ -121,7 +121,7 @@ def copyFromFieldWith (rec : FromRec) (overrides : List (String × String)) (inf
           else .ok st
         else .ok { st with obj := st.obj.setField info.name t }
     | .object, .obj unk null attrs _ =>
-      let isEmpty := match msg with | some m => m.isEmpty | none => false
+      let isEmpty := (isEmptyMsg msg)
       if info.oneOfName == "" then
         -- obj.F = nil / T{}
         match writeField info st.obj (if info.isNullable then .ptr none else .struct []) with
